@@ -78,6 +78,8 @@ var gens = []generator{
 	{file: "CliRotate.lean", src: "cmd/gts/rotate.go (the per-record step)", run: genCliRotate},
 	{file: "CliExtract.lean", src: "cmd/gts/extract.go (containsRegion, the per-record step)", run: genCliExtract},
 	{file: "Locator.lean", src: "locator.go (the locator constructors, tryLocation, AsLocator)", run: genLocator},
+	{file: "GoStrings.lean", src: "(fixed prelude of the seqio writer translator: strings, slices, fmt verbs)", run: genGoStrings},
+	{file: "InsdcWrite.lean", src: "seqio/insdc.go (GetQualifierType, QualifierIO.String, QualifierFormatter.String, INSDCFormatter.String)", run: genInsdcWrite},
 }
 
 func writeIfChanged(path string, content []byte) (bool, error) {
